@@ -33,23 +33,25 @@ def assignors():
     return {"range": RangePartitionAssignor, "roundrobin": RoundRobinPartitionAssignor, "sticky": StickyPartitionAssignor}
 
 
-def members_for(assignor, subs, previous=None, generation=1):
-    """subs: {member: [topics]}; previous: {member: [TopicPartition]} carried through the real user-data encoding."""
+def members_for(assignor, subs, previous=None, generation=1, generations=None):
+    """subs: {member: [topics]}; previous: {member: [TopicPartition]} carried through the real user-data encoding;
+    generations: {member: generation} for members that report another generation than `generation` (a member that
+    missed the last rebalance reports what it owned before, with that generation)."""
     from aiokafka.coordinator.protocol import ConsumerProtocolMemberMetadata
     out = {}
     for m, topics in subs.items():
         # the topics are listed in the order the caller gives (a member lists its subscription in set order, i.e. any
         # order; an earlier version sorted them here and so never exercised a non-alphabetical listing: seeded C15-c)
         if assignor.name == "sticky" and previous is not None and m in previous:
-            out[m] = assignor._metadata(list(topics), previous[m], generation)
+            out[m] = assignor._metadata(list(topics), previous[m], (generations or {}).get(m, generation))
         else:
             out[m] = ConsumerProtocolMemberMetadata(assignor.version, list(topics), b"")
     return out
 
 
-def run(assignor, parts, subs, previous=None, generation=1):
+def run(assignor, parts, subs, previous=None, generation=1, generations=None):
     """-> {member: set of (topic, partition)} as decoded from the ConsumerProtocolMemberAssignment objects."""
-    res = assignor.assign(Cluster(parts), members_for(assignor, subs, previous, generation))
+    res = assignor.assign(Cluster(parts), members_for(assignor, subs, previous, generation, generations))
     out = {}
     for m, a in res.items():
         s = []
